@@ -1,5 +1,6 @@
 import FrappyProofs.Lemmas.Poller
 import FrappyProofs.Lemmas.PollerSlow
+import FrappyProofs.Lemmas.PollerGap
 import FrappyModel.Generated.C13
 /-
 C13 — property theorems (nothing but property theorems, the kept full statement of the unfinished one, and
@@ -288,6 +289,84 @@ theorem main_gap_bound (c : Consts) (env : Env) (hq : Quiet env) (D E : Nat) (hb
     · rw [ps]; intro a ha; simp at ha
   exact ⟨h1, gapsLe_mono _ _ _ (gapBound_le _ D E _ (by omega)) h1⟩
 
+/-- **main_gap_bound, as the specification states it.**  The clause the monitor evaluates on implementation traces —
+`MainGapBoundS`: for every polled module, between consecutive `doPoll` starts after the start-up round, from the end
+of the start-up round to the first start, and from the last start to the end of the observation, no more than the
+interval in force plus one sweep — holds for the trace of the model's thread body (start-up round and any number of
+turns, observed until the clock of the last turn), with one sweep `= sweepBound n D E`, for every quiet environment
+with durations `≤ D` and clock steps `≤ E`, every number of modules and any intervals.  The thread starts with every
+polled module due (`last_main = 0` in `PollInfo.__init__`: hypothesis `hstart`). -/
+theorem main_gap_bound_spec (c : Consts) (env : Env) (hq : Quiet env) (D E : Nat) (hb : Bounded env D E)
+    (σ : PollState)
+    (hstart : ∀ (i : Nat) (m : Mod), σ.mods[i]? = some m → m.enabled = true →
+      m.lastMain ≤ m.lastStart ∧ m.lastMain + m.interval < σ.clock) (k : Nat) :
+    MainGapBoundS (sweepBound σ.mods.length D E)
+      (traceOf σ (thread c env k σ).evs (prologue c env σ).σ.clock (thread c env k σ).σ.clock E) := by
+  intro i hi mi hmi
+  simp only [traceOf, List.getElem?_map, Option.map_eq_some_iff] at hmi
+  obtain ⟨m, hm, rfl⟩ := hmi
+  have he : m.enabled = true := by
+    simp only [traceOf, enabledIdx, List.mem_filter, List.getElem?_map, hm, Option.map_some, infoOf] at hi
+    exact hi.2
+  have hilt : i < σ.mods.length := by
+    rcases List.getElem?_eq_some_iff.1 hm with ⟨h, _⟩; exact h
+  obtain ⟨hle, hdue⟩ := hstart i m hm he
+  obtain ⟨pm, ps⟩ := prologue_quiet c env hq i σ
+  have hclk : σ.clock ≤ (prologue c env σ).σ.clock := (prologue_step c env hq 0 0 σ).clk
+  have hinv : GapInv σ.mods.length i D E m.interval (prologue c env σ).σ m :=
+    ⟨by rw [pm], by rw [pm]; exact hm, he, rfl, hle⟩
+  have hr0 : RunInv σ.mods.length i D E m.interval (prologue c env σ).σ.clock (prologue c env σ).σ m
+      (startsOf (prologue c env σ).evs i) := by
+    rw [ps]
+    exact ⟨fun ab hab => by simp [pairs] at hab, fun a ha => by simp at ha, fun t ht => by simp at ht,
+      fun a ha => by simp at ha, fun _ => ⟨rfl, by omega⟩, Nat.le_refl _⟩
+  obtain ⟨m', _, hR⟩ := run_full c env hq D E hb σ.mods.length i m.interval (prologue c env σ).σ.clock hilt k
+    (prologue c env σ).σ m (prologue c env σ).evs hinv hr0
+  have hth : thread c env k σ = run c env k (prologue c env σ).σ (prologue c env σ).evs := rfl
+  rw [← hth] at hR
+  have hS : gapBound σ.mods.length D E m.interval ≤ m.interval + sweepBound σ.mods.length D E :=
+    gapBound_le _ D E _ (by omega)
+  have hfilter : (startsOf (thread c env k σ).evs i).filter (fun t => decide ((prologue c env σ).σ.clock ≤ t)) =
+      startsOf (thread c env k σ).evs i :=
+    List.filter_eq_self.2 (fun t ht => decide_eq_true (Nat.le_of_lt (hR.lo t ht)))
+  have hgl : GapsLe (startsOf (thread c env k σ).evs i ++ [(thread c env k σ).σ.clock])
+      (gapBound σ.mods.length D E m.interval) := by
+    apply gapsLe_append_single _ _ _ hR.gaps
+    intro a ha
+    obtain ⟨h1, h2⟩ := hR.link a ha
+    unfold ClockInv restAfter at h2
+    unfold gapBound
+    have hmaxI : m.interval ≤ Nat.max m.interval D := Nat.le_max_left _ _
+    have h5 : (σ.mods.length - 1 - i) * (D + E) ≤ (σ.mods.length - 1) * (D + E) :=
+      Nat.mul_le_mul_right _ (by omega)
+    omega
+  show (∀ ab ∈ pairs ((startsOf (thread c env k σ).evs i).filter
+        (fun t => decide ((prologue c env σ).σ.clock ≤ t)) ++ [(thread c env k σ).σ.clock]),
+      ab.2 ≤ mainLimit (sweepBound σ.mods.length D E) (infoOf m) ab.1 ab.2) ∧
+    ((startsOf (thread c env k σ).evs i).filter (fun t => decide ((prologue c env σ).σ.clock ≤ t)) ++
+      [(thread c env k σ).σ.clock]).head! ≤ (prologue c env σ).σ.clock + sweepBound σ.mods.length D E
+  rw [hfilter]
+  constructor
+  · intro ab hab
+    have hg := hgl ab hab
+    by_cases hb0 : ab.2 = 0
+    · rw [hb0]; exact Nat.zero_le _
+    · have hpos : 0 < ab.2 := Nat.pos_of_ne_zero hb0
+      have hmax : ab.1 + m.interval ≤ Nat.max (ab.1 + m.interval) 0 := Nat.le_max_left _ _
+      simp only [mainLimit, infoOf, ModInfo.intervals, intervalsFrom, inForce, List.foldl_cons, List.foldl_nil, hpos, if_true]
+      omega
+  · cases hs : startsOf (thread c env k σ).evs i with
+    | nil =>
+      have := (hR.fresh hs).1
+      show (thread c env k σ).σ.clock ≤ _
+      omega
+    | cons x xs =>
+      have := hR.head x (by rw [hs]; rfl)
+      have h6 : i * (D + E) ≤ σ.mods.length * (D + E) := Nat.mul_le_mul_right _ (by omega)
+      show x ≤ _
+      unfold sweepBound
+      omega
+
 /-! ## refresh of the other parameters -/
 
 /-- the explicit refresh bound: one and a half slow intervals plus `2N+2` sweeps, `N` the number of polled
@@ -442,6 +521,23 @@ example : GapsLe (startsOf (thread exConsts exEnv 30 exState).evs 0) 23 ∧
     ¬ GapsLe (startsOf (thread exConsts exEnv 30 exState).evs 0) 10 :=
   ⟨(main_gap_bound exConsts exEnv exEnv_quiet 3 1 exEnv_bounded exState 0 (exMod 10 40 [0, 1]) rfl rfl
       (Nat.le_refl _) 30).1, by decide⟩
+
+/-- `main_gap_bound_spec` on it: the specification's clause, the one the monitor runs, holds with one sweep = 16 ticks
+for 30 turns of the example thread — and the monitor agrees; with a sweep of 0 ticks it does not (the bound is not vacuous) -/
+example : MainGapBoundS (sweepBound 3 3 1)
+    (traceOf exState (thread exConsts exEnv 30 exState).evs (prologue exConsts exEnv exState).σ.clock
+      (thread exConsts exEnv 30 exState).σ.clock 1) :=
+  main_gap_bound_spec exConsts exEnv exEnv_quiet 3 1 exEnv_bounded exState
+    (by intro i m hm he
+        match i, hm with
+        | 0, hm => cases hm; decide
+        | 1, hm => cases hm; decide
+        | 2, hm => cases hm; simp at he
+        | n + 3, hm => simp [exState] at hm) 30
+
+example : ¬ MainGapBoundS 0
+    (traceOf exState (thread exConsts exEnv 30 exState).evs (prologue exConsts exEnv exState).σ.clock
+      (thread exConsts exEnv 30 exState).σ.clock 1) := by decide
 
 /-- `due_polled_this_turn` / `not_due_not_polled` on the first turn after start-up: module 1 is due and polled -/
 example : ∃ t, startsOf (turn exConsts exEnv (prologue exConsts exEnv exState).σ).evs 1 = [t] :=
